@@ -179,20 +179,36 @@ class RefTarget:
         return TcpConn(self, sock)
 
     def new_session_handle(self):
+        # any non-zero 32-bit value is a legal handle: now and then one from the ends of the range (sign bit, all ones, 1)
+        if self.rng.random() < 0.08:
+            h = self.rng.choice([0x80000000, 0xFFFFFFFF, 0x00000001, 0x7FFFFFFF, 0x00010000, 0x80000001])
+            if h not in self.sessions:
+                return h
         while True:
             h = self.rng.getrandbits(32)
             if h and h not in self.sessions and h & 0xFF00FF00:
                 return h
 
     def new_conn_id(self):
+        # the target chooses the O->T connection id freely - including 0, the sign bit, all ones and one-byte patterns
+        if self.rng.random() < 0.10:
+            c = self.rng.choice([0x00000000, 0x00000001, 0x00000080, 0x00000100, 0x01000000, 0x80000000, 0xFFFFFFFF])
+            if c not in self.connections:
+                return c
         while True:
             c = self.rng.getrandbits(32)
-            # never the values pycomm3 has as defaults, never 0
+            # never the values pycomm3 has as defaults
             if c and c not in self.connections and c.to_bytes(4, "little") not in (b"\x27\x04\x19\x71",):
                 return c
 
     def device_for(self, route):
         return self.routes.get(tuple(route))
+
+    def expire_connections(self):
+        """The target's connection watchdog fired: it forgets every CIP connection (sessions stay).  A later Forward Close of
+        such a connection is refused with 01/0107, and a connected message on its id is dropped."""
+        self.connections.clear()
+        self.triads.clear()
 
     # ---- UDP ListIdentity (discover) ----------------------------------------------------------------------------
     def udp(self, data, addr):
@@ -287,8 +303,15 @@ class TcpConn:
         if cmd == enc.CMD_LIST_IDENTITY:
             if body:
                 log.v("C11", "list-identity-body", f"ListIdentity with {len(body)} command-data bytes", frame[:40])
-            if h["session"] not in (0, self.session):
-                log.v("C11", "wrong-session", f"ListIdentity carries session {h['session']:#x}, granted {self.session}", frame[:32])
+            # "the session handle granted by the target (zero only before registration)": once this connection has a session,
+            # zero is as wrong as any other foreign handle (a stale frame built before registration, or for another session)
+            # (a client that never read the RegisterSession reply - lost or damaged by a transport fault - has nothing but 0)
+            granted_to_client = self.session if (self.session is not None and self.session_acked) else None
+            if h["session"] == 0 and self.session is not None and not self.session_acked:
+                log.c("list-identity-without-session")
+            elif h["session"] != (granted_to_client if granted_to_client is not None else 0):
+                log.v("C11", "wrong-session", f"ListIdentity carries session {h['session']:#x}, " +
+                      (f"granted {self.session:#x}" if self.session is not None else "no session is registered on this connection"), frame[:32])
             rbody = (1).to_bytes(2, "little") + t.front.identity.list_identity_item()
             return self.reply({"kind": "list_identity"}, enc.build_frame(cmd, h["session"], rbody, context=h["context"]))
         if cmd == enc.CMD_UNREGISTER:
